@@ -362,9 +362,10 @@ def c15(c):
                    "names containing a newline are excluded by the property"])
 def c03(c):
     eng = ENGINES9 if c.tier == 'thorough' else ENGINES9[:3]
-    c.std([dict(src='c03_resume.cpp', build='asan', variants=_t_engine_variants(eng), shards={'quick': 2, 'thorough': 1})])
+    c.std([dict(src='c03_resume.cpp', build='asan', variants=_t_engine_variants(eng), shards={'quick': 2, 'thorough': 1}, extra_inc=SHIM, libs=['-pthread'])])
     for k in ('compositions_checked', 'interruptions', 'initial_checkpoints_reloaded_before_the_first_iteration', 'cases_file_transport', 'cases_text_transport', 'runs_stopped_early_by_target',
-              'cases_plain+dists', 'cases_vegas-default+dists', 'cases_vegas-user-grid', 'cases_mc-default', 'cases_mc-user-weights+dists'):
+              'cases_plain+dists', 'cases_vegas-default+dists', 'cases_vegas-user-grid', 'cases_mc-default', 'cases_mc-user-weights+dists',
+              'mpi_cases', 'mpi_compositions_checked', 'binnings_whose_bin_size_is_not_recomputable_from_the_range'):
         c.require(k)
 
 
